@@ -26,8 +26,11 @@ RULE = ("pairs of documents x array modes {position, value} x AoH modes {positio
         "mappings or at the root, siblings often equal-valued copies of one another, the left document derived list by list "
         "(identical / reordered / element inserted, deleted, replaced), compared under a real INI file whose [rules] give "
         "some of the lists their own mode (position / value; key / deep for record lists) and whose [keys] name identity keys, "
-        "x the command-line modes (also absent): direct checks only, the positional clauses judged wherever every list above "
-        "an entry is compared by position, clean <=> data-equal with the per-list modes, "
+        "x the command-line modes (also absent): the report / crash class against the per-path Lean model (fed with the "
+        "coordinates DifferConfig.prepare stored) and direct checks, the positional clauses judged wherever every list above "
+        "an entry is compared by position, clean <=> data-equal with the per-list modes; plus model-only cases: lists inside "
+        "lists with [rules] for elements, [keys] for single records, mode texts of the other kind of list / naming no mode, "
+        "rules on mappings and scalars, "
         "(8) yaml-diff main() also under every output-selection option (-s/--same, -o/--onlysame, -q/--quiet, -v, and the "
         "combinations the command accepts) and with such [rules]/[keys] files: exit 0 <=> report clean <=> data-equal, "
         "whatever is displayed.  "
@@ -275,16 +278,61 @@ def seg_canon(path):
     return out
 
 
+def coord_entries(rdoc, section):
+    """the NodeCoords -> text dictionary of DifferConfig as [[address in the right document, text]] (order kept);
+    None when an entry cannot be located (then the case is not compared with the model)"""
+    where = {}
+
+    def walk(x, addr):
+        if isinstance(x, dict):
+            where[id(x)] = addr
+            for k, v in x.items():
+                walk(v, addr + [["k", codec.key_to_json(k)]])
+        elif isinstance(x, list):
+            where[id(x)] = addr
+            for i, v in enumerate(x):
+                walk(v, addr + [["i", i]])
+        elif isinstance(x, (set, frozenset)) or type(x).__name__ == "CommentedSet":
+            where[id(x)] = addr
+
+    try:
+        walk(rdoc, [])
+        out = []
+        for nc, text in section.items():
+            if nc.parent is None:
+                out.append([[], str(text)])
+                continue
+            base = where.get(id(nc.parent))
+            if base is None:
+                return None
+            if isinstance(nc.parent, dict):
+                ref = ["k", codec.key_to_json(nc.parentref)]
+            elif isinstance(nc.parent, list):
+                ref = ["i", int(nc.parentref)]
+            else:
+                ref = ["m", codec.key_to_json(nc.parentref)]
+            out.append([base + [ref], str(text)])
+        return out
+    except (codec.OutOfModel, TypeError, ValueError):
+        return None
+
+
 def impl_report(lj, rj, arr, aoh, limit_s=10.0, config=None):
     """{"rep": sorted canonical entries} | {"crash": type, "site": ...} | {"timeout": 1}"""
     from yamlpath.differ import Differ, DifferConfig
     log = core.quiet_logger()
+    _ents = [None]
     old = signal.signal(signal.SIGVTALRM, _alarm)
     signal.setitimer(signal.ITIMER_VIRTUAL, limit_s)
     try:
         cfg = DifferConfig(log, SimpleNamespace(arrays=arr, aoh=aoh, config=config))
         d = Differ(cfg, log, codec.json_to_ruamel(lj))
-        d.compare_to(codec.json_to_ruamel(rj))
+        rdoc = codec.json_to_ruamel(rj)
+        if config is not None:
+            # what prepare() stores does not depend on the comparison: read it first (also for runs that crash)
+            cfg.prepare(rdoc)
+            _ents[0] = {"rules": coord_entries(rdoc, cfg.rules), "keys": coord_entries(rdoc, cfg.keys)}
+        d.compare_to(rdoc)
         rep = []
         for e in d.get_report():
             act = e.action.name.lower()
@@ -292,11 +340,11 @@ def impl_report(lj, rj, arr, aoh, limit_s=10.0, config=None):
             rhs = None if act == "delete" else codec.node_to_json(e._rhs, anchors=False)
             rep.append([act, seg_canon(e.path), lhs, rhs])
         rep.sort(key=lambda x: json.dumps(x, sort_keys=True))
-        return {"rep": rep}
+        return {"rep": rep, "entries": _ents[0]}
     except Timeout:
         return {"timeout": 1}
     except Exception as e:  # noqa
-        return {"crash": type(e).__name__, "site": core.crash_site(e), "cls": core.exc_class(e)}
+        return {"crash": type(e).__name__, "site": core.crash_site(e), "cls": core.exc_class(e), "entries": _ents[0]}
     finally:
         signal.setitimer(signal.ITIMER_VIRTUAL, 0)
         signal.signal(signal.SIGVTALRM, old)
@@ -820,6 +868,97 @@ def rand_rule_case(rng):
             "aoh": rng.choice([None, None] + AOH), "rules": rules, "keys": keys}
 
 
+AOH_ONLY = ["dpos", "key", "deep"]
+
+
+def part_index(path, i):
+    """the path of element i of the list at `path` (as the parts of ini_text)"""
+    return list(path[:-1]) + ["%s[%d]" % (path[-1], i)]
+
+
+def rand_rule_case_model(rng):
+    """per-path configuration the direct checks do not cover - compared with the Lean model only (`model_only`):
+    lists inside lists with a [rules] entry for an element (the Processor counts from 0, the Differ hands down pos + 1),
+    [keys] entries for single records (`use_key`), [rules] texts that are modes of the other kind of list (`dpos`/`key`/`deep`
+    met by `array_diff_mode`: finding C06-K4) or no mode at all, empty lists, rules on mappings / scalars"""
+    c = rand_rule_case(rng)
+    c["model_only"] = True
+    rj, lj = c["r"], c["l"]
+    lists = [(p_, l_) for p_, l_ in rule_lists_of(rj) if p_]
+    x = rng.random()
+    if x < 0.3 and rj["k"] == "map":
+        # wrap some lists into a list of lists: {g: [L1, L2, L1']}, rules for elements
+        inner = [json.loads(json.dumps(rule_list(rng))) for _ in range(rng.randint(1, 3))]
+        if inner and rng.random() < 0.6:
+            inner.append(json.loads(json.dumps(inner[0])))
+        linner = json.loads(json.dumps(inner))
+        for l_ in linner:
+            if rng.random() < 0.6:
+                rule_edit_list(rng, l_)
+        if rng.random() < 0.3 and len(linner) > 1:
+            rng.shuffle(linner)
+        rj["e"].append(["g", {"k": "seq", "i": inner}])
+        lj["e"].append(["g", {"k": "seq", "i": linner}])
+        for i, l_ in enumerate(inner):
+            if rng.random() < 0.6:
+                is_aoh = bool(l_["i"]) and l_["i"][0]["k"] == "map"
+                c["rules"].append([["g[%d]" % i], rng.choice(["position", "value", "key", "deep"] if is_aoh else ARR)])
+        if rng.random() < 0.4:
+            c["rules"].append([["g"], rng.choice(ARR)])
+    elif x < 0.6:
+        # identity keys for single records
+        for p_, l_ in lists:
+            if l_["i"] and l_["i"][0]["k"] == "map":
+                for i in range(len(l_["i"])):
+                    if rng.random() < 0.4:
+                        c["keys"].append([part_index(p_, i), rng.choice(["id", "n", "v", "zz"])])
+                if not any(r_[0] == list(p_) for r_ in c["rules"]) and rng.random() < 0.7:
+                    c["rules"].append([list(p_), rng.choice(["key", "deep"])])
+    elif x < 0.85:
+        # texts of the other kind / no mode at all / upper case
+        for p_, l_ in lists:
+            if rng.random() < 0.5:
+                c["rules"] = [r_ for r_ in c["rules"] if r_[0] != list(p_)]
+                c["rules"].append([list(p_), rng.choice(AOH_ONLY + AOH_ONLY + ["VALUE", "Position", "bogus", "values"])])
+    else:
+        # rules / keys on nodes that are no lists
+        if rj["k"] == "map" and rj["e"]:
+            k = rng.choice(rj["e"])[0]
+            c["rules"].append([[str(k)], rng.choice(ARR + AOH_ONLY)])
+            c["keys"].append([[str(k)], rng.choice(["id", "n"])])
+    for sec in ("rules", "keys"):          # configparser refuses a repeated option
+        seen, out = set(), []
+        for p_, v in c[sec]:
+            if tuple(p_) not in seen:
+                seen.add(tuple(p_))
+                out.append([p_, v])
+        c[sec] = out
+    return c
+
+
+def rule_model_corpus():
+    P = plain_to_json
+    return [
+        # an entry for the second of two equal inner lists is found for the first (pos + 1 against the Processor's 0-based index)
+        {"l": P({"g": [[2, 1], [1, 2]]}), "r": P({"g": [[1, 2], [1, 2]]}), "arr": None, "aoh": None,
+         "rules": [[["g[1]"], "value"]], "keys": [], "model_only": True},
+        {"l": P({"g": [[2, 1], [1, 2]]}), "r": P({"g": [[1, 2], [1, 2]]}), "arr": None, "aoh": None,
+         "rules": [[["g[0]"], "value"]], "keys": [], "model_only": True},
+        # dpos as a rule for a record list (C06-K4)
+        {"l": P({"a": [{"id": 1}]}), "r": P({"a": [{"id": 1}]}), "arr": None, "aoh": None,
+         "rules": [[["a"], "dpos"]], "keys": [], "model_only": True},
+        {"l": P({"a": [1, 2]}), "r": P({"a": [2, 1]}), "arr": None, "aoh": None,
+         "rules": [[["a"], "key"]], "keys": [], "model_only": True},
+        # a record of its own identity key which the left record does not have
+        {"l": P({"a": [{"id": 1}, {"id": 2}]}), "r": P({"a": [{"id": 1, "n": "x"}, {"id": 2}]}), "arr": None, "aoh": "key",
+         "rules": [], "keys": [[["a[0]"], "n"]], "model_only": True},
+        {"l": P({"a": [{"id": 1}, {"id": 2}]}), "r": P({"a": [{"id": 1}, {"id": 2, "n": "x"}]}), "arr": None, "aoh": "key",
+         "rules": [], "keys": [[["a[1]"], "n"]], "model_only": True},
+        {"l": P({"a": [{"id": 1, "n": "y"}, {"id": 2, "n": "x"}]}), "r": P({"a": [{"id": 1, "n": "x"}, {"id": 2, "n": "y"}]}),
+         "arr": None, "aoh": "deep", "rules": [], "keys": [[["a[0]"], "n"], [["a"], "id"]], "model_only": True},
+    ]
+
+
 def ini_text(case):
     def line(path, val):
         return "/%s = %s\n" % ("/".join(path), val)
@@ -928,12 +1067,13 @@ def rule_case_parts(c):
 
 
 def rule_cases(cases):
-    """documents compared under a real INI file with [rules] / [keys]: direct checks only (the Lean model
-    has no per-path configuration)"""
+    """documents compared under a real INI file with [rules] / [keys]: the report (or crash class) against the
+    per-path Lean model (`C06.diffRules`, fed with the coordinates DifferConfig.prepare stored), and the direct
+    checks on the real report (not for `model_only` cases)"""
     tmpd = tempfile.mkdtemp(prefix="ypv-c06-")
     cf = os.path.join(tmpd, "rules.ini")
     stats = {"n": 0, "hist": {}, "nontrivial": [], "out_of_model": 0}
-    viol = []
+    viol, disag, pending = [], [], []
 
     def count(k):
         stats["hist"][k] = stats["hist"].get(k, 0) + 1
@@ -954,9 +1094,25 @@ def rule_cases(cases):
             if "timeout" in im:
                 viol.append((sz, "timeout", "compare_to did not return within 120 s (config file)", case))
                 continue
+            ents = im.get("entries")
+            if ents and ents["rules"] is not None and ents["keys"] is not None:
+                pending.append((sz, case, im, {"op": "C06.diffRules", "l": lj, "r": rj, "arr": arr, "aoh": aoh,
+                                               "rules": ents["rules"], "keys": ents["keys"]}))
+            else:
+                stats["out_of_model"] += 1
             if "crash" in im:
-                viol.append((sz, "crash:%s@%s" % (im["crash"], im["site"]),
-                             "compare_to raised %s under a config file with [rules]/[keys]" % im["crash"], case))
+                texts = [str(m).upper() for m in rules.values()]
+                if im["crash"] == "NameError" and any(t not in [a.upper() for a in AOH] for t in texts):
+                    count("rules:text-names-no-mode")      # from_str raises NameError by contract: not judged
+                    im["unjudged"] = True
+                elif not pending or pending[-1][2] is not im:
+                    viol.append((sz, "crash:%s@%s" % (im["crash"], im["site"]),
+                                 "compare_to raised %s under a config file with [rules]/[keys]" % im["crash"], case))
+                continue
+            if c.get("model_only"):
+                count("gen:rules-model-only")
+                if im["rep"]:
+                    stats["nontrivial"].append(json.dumps([lj, rj, c["arr"], c["aoh"], c.get("rules"), c.get("keys")], sort_keys=True))
                 continue
             rep = im["rep"]
             lp, rp = codec.json_to_plain(lj), codec.json_to_plain(rj)
@@ -986,9 +1142,37 @@ def rule_cases(cases):
                 stats["nontrivial"].append(json.dumps([lj, rj, c["arr"], c["aoh"], c.get("rules"), c.get("keys")], sort_keys=True))
     finally:
         shutil.rmtree(tmpd, ignore_errors=True)
+    # the per-path model
+    CR = {"NameError": "nameError", "KeyError": "keyError"}
+    if pending:
+        model = core.Driver().ask([q for (_s, _c, _i, q) in pending])
+        for (sz, case, im, q), mo in zip(pending, model):
+            count("rules:model-compared")
+            count("rules:entries:%d" % min(6, len(q["rules"]) + len(q["keys"])))
+            if "crash" in im:
+                count("rules:crash:" + im["crash"])
+                explained = mo.get("crash") == CR.get(im["crash"])
+                if not explained:
+                    disag.append((sz, "rules:crash", "compare_to raised %s, the model says %s" % (
+                        im["crash"], mo.get("crash", "a report")), dict(case, entries=q, model=mo)))
+                if not im.get("unjudged"):
+                    # a crash the per-path model predicts from the configuration is one of the recorded classes
+                    # (C06-K4 / C06-K5); any other crash keeps the plain signature
+                    viol.append((sz, "%s:%s@%s" % ("rules-crash" if explained else "crash", im["crash"], im["site"]),
+                                 "compare_to raised %s under a config file with [rules]/[keys]" % im["crash"], case))
+                continue
+            if "crash" in mo:
+                disag.append((sz, "rules:crash", "the model says %s, compare_to returned a report" % mo["crash"],
+                              dict(case, entries=q, impl=im["rep"])))
+                continue
+            rep, mrep = im["rep"], model_rep(mo)
+            if rep != mrep and ([[a, p_, set_insensitive(l) if l else l, set_insensitive(r) if r else r] for a, p_, l, r in rep]
+                                != [[a, p_, set_insensitive(l) if l else l, set_insensitive(r) if r else r] for a, p_, l, r in mrep]):
+                disag.append((sz, "rules:report", "report under [rules]/[keys] differs from the per-path model's",
+                              dict(case, entries=q, impl=rep, model=mrep)))
     import hashlib
     stats["nontrivial"] = [hashlib.blake2b(s_.encode(), digest_size=8).hexdigest() for s_ in stats["nontrivial"]]
-    return stats, per_sig(viol), [], []
+    return stats, per_sig(viol), per_sig(disag), []
 
 
 # --------------------------------------------------------------------------- CLI sample
@@ -1271,6 +1455,8 @@ def build_jobs(chk, scale=1):
     jobs += [("cli", c) for c in core.chunked(cl, 32)]
     # per-path [rules] / [keys] through a real INI file
     rl = rule_corpus_cases() + [rand_rule_case(rng2) for _ in range((6000 if tier == "quick" else 80000) * scale)]
+    rng3 = random.Random(chk.seed * 11 + 5)
+    rl += rule_model_corpus() + [rand_rule_case_model(rng3) for _ in range((3000 if tier == "quick" else 40000) * scale)]
     jobs += [("rules", c) for c in core.chunked(rl, 32)]
     return jobs
 
